@@ -35,6 +35,16 @@ func newManagedAddressFromExtKey(keystoreName string, derivationPath DerivationP
 	}, nil
 }
 
+// c12PubEnc: the stub for the crypto key that the public passphrase opens (values it seals are readable without
+// the private passphrase); c12Enc is used for the private one.
+type c12PubEnc struct{}
+
+func (c12PubEnc) Encrypt(in []byte) ([]byte, error) { return append([]byte{0xaa}, in...), nil }
+func (c12PubEnc) Decrypt(in []byte) ([]byte, error) { return in[1:], nil }
+func (c12PubEnc) Bytes() []byte                     { return nil }
+func (c12PubEnc) CopyBytes([]byte)                  {}
+func (c12PubEnc) Zero()                             {}
+
 type c12Enc struct{}
 
 func (c12Enc) Encrypt(in []byte) ([]byte, error) { return append([]byte{0xcc}, in...), nil }
@@ -321,7 +331,7 @@ func VerifC12RestoreScan() {
 	err := mwdb.Update(db, func(tx mwdb.DBTransaction) error {
 		b := tx.TopLevelBucket("km")
 		var e error
-		meta, e = createManagerKeyScope(b, root, c12Enc{}, c12Enc{}, path, check, config.ChainParams, G)
+		meta, e = createManagerKeyScope(b, root, c12PubEnc{}, c12Enc{}, path, check, config.ChainParams, G)
 		return e
 	})
 	if err != nil {
@@ -332,6 +342,21 @@ func VerifC12RestoreScan() {
 	var acct *mdb.Bucket
 	for _, name := range []string{meta.Name()} {
 		acct = km.Sub(name)
+	}
+	// C05: what the public passphrase alone opens holds no private key - none of the private keys of the account's
+	// hierarchy is stored under the public crypto key
+	acctPriv := root
+	for _, i := range []uint32{Net2KeyScope[config.ChainParams.HDCoinType].Purpose + hdkeychain.HardenedKeyStart, Net2KeyScope[config.ChainParams.HDCoinType].Coin + hdkeychain.HardenedKeyStart, hdkeychain.HardenedKeyStart} {
+		acctPriv, _ = acctPriv.Child(i)
+	}
+	inPriv, _ := acctPriv.Child(InternalBranch)
+	exPriv, _ := acctPriv.Child(ExternalBranch)
+	for _, e := range acct.Ents {
+		if len(e.V) > 0 && e.V[0] == 0xaa {
+			for _, pk := range []*hdkeychain.ExtendedKey{acctPriv, inPriv, exPriv} {
+				rt.Assert(!bytes.Equal(e.V[1:], []byte(pk.String())), "no-private-key-under-the-public-crypto-key")
+			}
+		}
 	}
 	next := binary.LittleEndian.Uint32(acct.Lookup(externalChildNumName))
 	want := hint
